@@ -199,7 +199,15 @@ const NAMES: [&str; 20] = [
 const ODD_NAMES: [&str; 14] = [
     "a\\b.bin", "b.bin", "d\\e", "\\", "x\\", "#h", "100%", "a+b", "it's", "-dash", "ｳﾏ.txt", "日本", "~t", "a,b;c",
 ];
-const EXTS: [&str; 5] = ["txt", "lz", "bin", "cms", "cmp"];
+const EXTS: [&str; 8] = ["txt", "lz", "bin", "cms", "cmp", "TXT", "Txt", "LZ"];
+/// Names that differ only in letter case (`glob::glob` matches case-sensitively; so must listings).
+const CASE_SETS: [&[&str]; 5] = [
+    &["readme.txt", "README.TXT", "Notes.Txt"],
+    &["g.txt", "G.TXT", "g.Txt"],
+    &["a", "A"],
+    &["x.lz", "X.LZ", "x.Lz"],
+    &["m", "M", "t.bin", "T.BIN"],
+];
 
 struct Table {
     recs: Vec<Vec<u8>>,
@@ -455,6 +463,14 @@ fn history_case(rng: &mut Rng, id: &str, g: &str, lang: &str, nlayers: usize, ma
             names.push(n);
         }
     }
+    // letter case: in one case out of three a set of names that differ only in case
+    if rng.chance(1, 3) {
+        for n in *rng.pick(&CASE_SETS) {
+            if !names.contains(n) {
+                names.push(*n);
+            }
+        }
+    }
     // unusual characters: one or two odd names in two cases out of three; in one of six the trio
     // `a`, `b.bin`, `a\b.bin` (names that differ only by `\` vs `/`)
     match rng.below(6) {
@@ -612,11 +628,19 @@ fn listing_case(rng: &mut Rng, id: &str, g: &str, lang: &str) -> Vec<String> {
             ("d\\e/x\\y.txt".to_string(), f(1)),
             ("#h%+'".to_string(), f(0)),
             ("-x/~y".to_string(), f(1)),
+            ("README.TXT".to_string(), f(1)),
+            ("readme.txt".to_string(), f(2)),
+            ("d/Notes.Txt".to_string(), f(0)),
+            ("D/z.txt".to_string(), f(1)),
+            ("D/E/X.TXT".to_string(), f(2)),
         ]),
     ];
     let mut l = vec![new_line(id, g, lang, &s0, &arch, &trees)];
-    let dirs = ["", ".", "d", "d/", "d/e", "d/.hd", "f", "g", "emp", "nope", "nope/x", "q", "a b", "d/e/x.txt", "./d", "a", "d\\e", "-x"];
-    let pats = ["~", "*", "**/*", "*.txt", "**/*.txt", "*.lz", "**/*.lz", "e/*", "d/*", ".hd/*", "f/*", "nope/*"];
+    let dirs = ["", ".", "d", "d/", "d/e", "d/.hd", "f", "g", "emp", "nope", "nope/x", "q", "a b", "d/e/x.txt", "./d", "a", "d\\e", "-x", "D", "D/E", "D/e"];
+    let pats = [
+        "~", "*", "**/*", "*.txt", "**/*.txt", "*.lz", "**/*.lz", "e/*", "d/*", ".hd/*", "f/*", "nope/*", "*.TXT", "**/*.TXT", "**/*.Txt",
+        "D/*", "E/*", "readme*", "**/x*",
+    ];
     for d in dirs {
         for p in pats {
             let ph = if p == "~" { "~".to_string() } else { hexs(p) };
@@ -829,6 +853,40 @@ fn motif_case(rng: &mut Rng, id: &str, g: &str, lang: &str, d: &str, qv: usize, 
     l
 }
 
+/// Components at the OS limit of 255 BYTES (ASCII, three-byte kana; 254 too).  Longer components give
+/// ENAMETOOLONG, which the model does not express: they are left out.  FE9/FE10 prefix a localised file
+/// name (`e_`), which would exceed the limit, so localized access is generated for FE13-FE15 only.
+fn long_name_case(rng: &mut Rng, id: &str, g: &str, lang: &str) -> Vec<String> {
+    let (s0, arch) = base_payloads(rng);
+    let a255 = format!("{}.txt", "n".repeat(251));
+    let a254 = format!("{}.TXT", "N".repeat(250));
+    let kana = "ウ".repeat(85); // 255 bytes
+    let kana_f = format!("{}.lz", "ﾏ".repeat(84)); // 255 bytes
+    let trees = vec![
+        build_tree(&[(format!("{}/{}", kana, a255), Ent::File(2)), (a254.clone(), Ent::File(1))]),
+        build_tree(&[(format!("{}/{}", kana, a254), Ent::File(1)), ("k".to_string(), Ent::Dir)]),
+    ];
+    let mut l = vec![new_line(id, g, lang, &s0, &arch, &trees)];
+    let locs: &[&str] = if is_lz10_game(g) { &["0"] } else { &["0", "1"] };
+    for loc in locs {
+        for p in [format!("{}/{}", kana, a255), a254.clone(), format!("k/{}", kana_f), format!("k/{}/{}", kana, a255)] {
+            l.push(format!("{} file_exists {} {}", id, hexs(&p), loc));
+            l.push(format!("{} write {} p3 {}", id, hexs(&p), loc));
+            l.push(format!("{} read {} {}", id, hexs(&p), loc));
+            l.push(format!("{} resolve {} {}", id, hexs(&p), loc));
+        }
+        for d in ["", kana.as_str(), "k"] {
+            for pat in ["~", "*.txt", "**/*.txt", "**/*.TXT", "**/*.lz"] {
+                let ph = if pat == "~" { "~".to_string() } else { hexs(pat) };
+                l.push(format!("{} list {} {} {}", id, hexs(d), ph, loc));
+            }
+            l.push(format!("{} subdirs {} {}", id, hexs(d), loc));
+        }
+        l.push(format!("{} create_dir {} {}", id, hexs(&format!("k/{}/{}", kana, kana)), loc));
+    }
+    l
+}
+
 /// The POSIX / std behaviours the model fixes (DESIGN §6 C12 modelling notes), each determined by
 /// experiment against the real code; also kept as corpus cases `corpus/C12/posix-*.case`.
 fn posix_cases(rng: &mut Rng, id_q: &str, id_w: &str) -> Vec<String> {
@@ -908,6 +966,11 @@ pub fn gen(seed: u64, tier: &str) -> Vec<String> {
     for (g, lang) in [("FE14", "EnglishNA"), ("FE10", "EnglishEU")] {
         let id = next_id(&mut n);
         lines.extend(listing_case(&mut rng, &id, g, lang));
+    }
+    // B1. components at the 255-byte limit
+    for (g, lang) in [("FE14", "EnglishNA"), ("FE10", "EnglishNA")] {
+        let id = next_id(&mut n);
+        lines.extend(long_name_case(&mut rng, &id, g, lang));
     }
     // B2. codec boundaries on compressed paths (C12), both formats
     let prop = std::env::var("VERIF_PROP").unwrap_or_default();
